@@ -481,6 +481,9 @@ def check_property(prop, tier):
     only = os.environ.get("VERIF_ONLY")
     if only:
         obls = [o for o in obls if re.search(only, o["name"])]
+    if os.environ.get("VERIF_MUTANT"):
+        import mutants
+        mutants.apply(os.environ["VERIF_MUTANT"])     # fail loudly here if the mutant no longer applies
     known, fixed = load_known(prop)
     tasks = [{"prop": prop, "module": module, "obl": o, "known": sorted(known), "tier": tier}
              for o in sorted(obls, key=lambda o: -o.get("budget", 60))]
